@@ -219,8 +219,9 @@ def run(ctx):
                         res.violation('history|%s.%s|differs-from-fresh-interpreter(unreproduced)' % (s['m'], s['f']), 'hist', {'steps': steps},
                                       {'got': o['fail']['got'][:200], 'fresh': want[:200]})
             # sample
-            res.sample({'state_machine_worker': jobs[0]['seed'], 'calls': outs[0]['stats']['calls'], 'mutations': outs[0]['stats']['mutations'],
-                        'first_pool_calls': [dict(m=p['m'], f=p['f'], a=p['a']) for p in pool[:3]]})
+            for o in outs[:4]:
+                for sq in o.get('sample_sequences', [])[:2]:
+                    res.sample({'history': sq})
             # (2) thread trials
             rnd = random.Random(core.subseed(ctx.seed, 'C13', 'threads'))
             trials = []
@@ -245,8 +246,8 @@ def run(ctx):
                 if info and info.get('raced', 0) >= 2:
                     res.hist['class:thread-trials-with-concurrent-registry-first-use'] += 1
                 res.nt('threads', json.dumps(case, sort_keys=True)[:2000])
-            res.sample({'thread_trial': {'threads': len(trials[0]['lists']), 'calls_per_thread': len(trials[0]['lists'][0]),
-                                         'first': [dict(m=s['m'], f=s['f']) for s in trials[0]['lists'][0][:3]]}})
+            for tr in trials[:3]:
+                res.sample({'thread_trial': {'threads': len(tr['lists']), 'per_thread_calls': [['%s.%s' % (s['m'], s['f']) for s in lst] for lst in tr['lists'][:2]]}})
         finally:
             shutil.rmtree(tmp, ignore_errors=True)
     finally:
